@@ -202,6 +202,10 @@ func c14(tier string) []*explore.Scenario {
 	for _, ops := range []string{"h", "H", "s", "t", "r", "hs", "Hs", "sh", "ts", "hh"} {
 		out = append(out, c14AfterCancel(ops, bound))
 	}
+	// the user closes the ClientConn while calls are in flight
+	for _, ctxRace := range []bool{false, true} {
+		out = append(out, c14CloseInFlight(ctxRace, bound))
+	}
 	// batches of RPCs in flight at once (all kinds, mixed outcomes), repeated from the state the previous batch left
 	out = append(out, c14Batch(8, 2, 1), c14Batch(16, 2, 0), c14Batch(32, 2, 0))
 	if tier == "thorough" {
@@ -368,6 +372,72 @@ func c14AfterCancel(ops string, bound int) *explore.Scenario {
 			vsched.Quiesce()
 			if !d.ServeDone {
 				vsched.Fail(fam+"|serve-hang", "a handler performed %s on its stream after the caller had cancelled: Serve does not return when the connection closes; threads: %s", ops, threadList())
+			}
+		},
+	}
+}
+
+// c14CloseInFlight: ClientConn.Close() is called while a unary call and a stream
+// are in flight (the stream's handler still has messages to send), on a
+// transport that honours a done context and on one where it merely competes
+// with available data. The stream is then cancelled. Every call returns, and
+// once the transport is closed nothing of the connection remains.
+func c14CloseInFlight(ctxRace bool, bound int) *explore.Scenario {
+	fam := "C14/release"
+	return &explore.Scenario{
+		Name: fmt.Sprintf("C14/close-in-flight/ctxrace=%v", ctxRace), Family: fam, Prop: "C14", Bound: bound, Horizon: time.Hour,
+		Run: func() {
+			w := env.NewWorld()
+			d := env.NewDirect(w, env.DirectOpts{Pipe: env.PipeOpts{Cap: 64, CtxRace: ctxRace}})
+			vsched.Settle()
+			vsched.Explore(true)
+			rs, ru := w.Rec("s", "Bidi"), w.Rec("u", "Unary")
+			w.Handlers["s"] = env.HBurst(4)
+			release := make(chan struct{})
+			w.Unaries["u"] = func(r *env.Rec, ctx context.Context, in string) (string, error) {
+				select {
+				case <-release:
+				case <-ctx.Done():
+				}
+				return "R:" + in, nil
+			}
+			ctx, cancel := context.WithCancel(context.Background())
+			defer cancel()
+			var cs grpc.ClientStream
+			vsched.GoNamed("caller-s", func() {
+				cs = w.Open(d.CC, ctx, rs)
+				if cs != nil {
+					env.CSend(rs, cs, "go")
+				}
+			})
+			vsched.GoNamed("caller-u", func() { w.CallUnary(d.CC, context.Background(), ru, "x") })
+			vsched.Quiesce()
+			d.CC.Close()
+			close(release)
+			sdone := false
+			vsched.GoNamed("caller-s2", func() {
+				if cs != nil {
+					cancel()
+					env.CRecvAll(rs, cs)
+				}
+				sdone = true
+			})
+			vsched.Quiesce()
+			vsched.Obs("ctxrace=%v: stream done=%v err=%s; unary done=%v err=%s", ctxRace, sdone, env.ErrStr(rs.CErr), ru.CDone, env.ErrStr(ru.CErr))
+			if !sdone {
+				vsched.Fail(fam+"|hang", "Close() with calls in flight: the cancelled stream's receive never returned; threads: %s", threadList())
+			}
+			if !ru.CDone {
+				vsched.Fail(fam+"|hang", "Close() with calls in flight: the unary call never returned; threads: %s", threadList())
+			}
+			d.Pipe.A.Break()
+			d.Pipe.B.Break()
+			vsched.Quiesce()
+			if !d.ServeDone {
+				vsched.Fail(fam+"|serve-hang", "Serve does not return when the connection closes; threads: %s", threadList())
+			}
+			if ts := vsched.Threads(); len(ts) > 0 {
+				vsched.Fail(fam+"|not-idle:goroutine|close-in-flight", "after Close(), the end of all calls and the transport closing, goroutines remain: %s", threadList())
 			}
 		},
 	}
